@@ -261,7 +261,7 @@ pub fn huff_cases(cfg: &Cfg, aliases: &[&'static str], arity: usize, opts: &BatO
             out.push(tree_case(alias, tname, r, w));
         }
     }
-    if cfg.scale == Scale::Full {
+    if cfg.scale == Scale::Full && cfg.rep == 0 {
         // long (25..27-bit) codewords on two branches
         let spec = long_two_branch_spec(cfg.seed ^ 0x2B);
         let alias = aliases[aliases.len() - 1];
@@ -272,7 +272,7 @@ pub fn huff_cases(cfg: &Cfg, aliases: &[&'static str], arity: usize, opts: &BatO
         let r = TreeRun { spec, path: 2, ties: vec![None], opts: o };
         out.push(tree_case(alias, "u8", r, w));
     }
-    if with_over32 && cfg.scale == Scale::Full {
+    if with_over32 && cfg.scale == Scale::Full && cfg.rep == 0 {
         // the deepest supported code: exactly 32 bits
         let spec = deepest_supported_spec(arity, cfg.seed ^ 0x0320);
         let alias = aliases[aliases.len() / 2];
@@ -283,7 +283,7 @@ pub fn huff_cases(cfg: &Cfg, aliases: &[&'static str], arity: usize, opts: &BatO
         let r = TreeRun { spec, path: 0, ties: vec![None], opts: o };
         out.push(tree_case(alias, "u16", r, w));
     }
-    if with_over32 && cfg.scale == Scale::Full {
+    if with_over32 && cfg.scale == Scale::Full && cfg.rep == 0 {
         // the input whose longest code exceeds 32 bits (known finding; see known_findings.json)
         let spec = over32_spec(arity, cfg.seed ^ 0x0532);
         let alias = aliases[0];
